@@ -177,6 +177,11 @@ pub fn run(prop: &'static str, tier: Tier, seed: u64) -> i32 {
     // non-E1 engines
     let mut reports: Vec<EngineReport> = vec![];
     match prop {
+        "C03" => {
+            if let Some(r) = crate::miri::report_from_env() {
+                reports.push(r);
+            }
+        }
         "C05" => {
             reports.push(crate::grid::run(tier));
             reports.push(crate::lfu::run_tinylfu("C05", tier));
